@@ -5,6 +5,7 @@ import random
 HEADERS = """
 #include <vf/det.hpp>
 #include <unifex/allocate.hpp>
+#include <unifex/any_sender_of.hpp>
 #include <unifex/defer.hpp>
 #include <unifex/dematerialize.hpp>
 #include <unifex/done_as_optional.hpp>
@@ -49,7 +50,7 @@ TERMINALS = [("leaf", 10), ("just", 1), ("just_from", 1), ("jvod", 1), ("sir", 1
 UNARY = [("then", 5), ("upon_error", 2), ("upon_done", 2), ("let_value", 5), ("let_error", 3),
          ("let_done", 3), ("finally", 4), ("via", 3), ("on", 3), ("with_query", 2),
          ("unstoppable", 2), ("demat", 2), ("allocate", 1), ("lvw_stop_source", 3),
-         ("lvw_stop_token", 2), ("let_value_with", 1), ("defer", 1), ("retry_when", 2)]
+         ("lvw_stop_token", 2), ("let_value_with", 1), ("defer", 1), ("retry_when", 2), ("any_sender", 2)]
 NARY = [("sequence", 4), ("when_all", 6), ("stop_when", 5)]
 VAL_ONLY = [("materialize_c", 2), ("dao_c", 2), ("into_variant_c", 1)]
 VOID_ONLY = [("repeat_effect_until", 2)]
@@ -198,6 +199,8 @@ class Gen:
             src = self.with_errors(E(vt, d), vt)
             self.in_loop -= 1
             return {"op": "retry_when", "kid": src, "fn": self.fn_id(), "body": E("void", d)}
+        if k == "any_sender":
+            return {"op": "any_sender", "kid": E(vt, d), "vt": vt}
         if k == "sequence":
             n = self.rng.choice([2, 2, 3])
             return {"op": "sequence", "kids": [E("void", d) for _ in range(n - 1)] + [E(vt, d)]}
@@ -230,7 +233,7 @@ def may_have_empty_errors(s):
     """conservative: False only when the sender certainly declares exception_ptr errors"""
     op = s["op"]
     if op in ("leaf", "then", "upon_error", "upon_done", "let_value", "let_error", "let_done",
-              "finally", "via", "when_all", "just_from", "defer", "retry_when", "just_error"):
+              "finally", "via", "when_all", "just_from", "defer", "retry_when", "just_error", "any_sender"):
         return False
     if op in ("unstoppable", "with_query", "allocate", "lvw_stop_source", "lvw_stop_token",
               "let_value_with", "stop_when"):
@@ -283,6 +286,8 @@ def cpp(s):
             return U + "with_query_value(%s, unifex::get_scheduler, vf::msched{%d})" % (cpp(s["kid"]), s["value"])
     if op in ("unstoppable", "materialize", "dematerialize", "done_as_optional", "into_variant", "allocate"):
         return U + "%s(%s)" % (op, cpp(s["kid"]))
+    if op == "any_sender":
+        return U + "any_sender_of<%s>{%s}" % ("vf::val" if s["vt"] == "val" else "", cpp(s["kid"]))
     if op == "lvw_stop_source":
         return U + "let_value_with_stop_source(vf::fn(%d, [](auto&) { return %s; }))" % (s["fn"], cpp(s["body"]))
     if op == "lvw_stop_token":
